@@ -1583,7 +1583,10 @@ func SleepNS(d int64) {
 		return
 	}
 	if d < w.Opt.EagerBelow || w.Opt.Clock == ClockNone {
-		w.op(&pending{kind: OpYield})
+		// "no time": a yield - but the requested duration is part of the pending
+		// operation (and so of the state key): a sleep whose argument changes from
+		// round to round must not look like the same state
+		w.op(&pending{kind: OpYield, n: int(d)})
 		return
 	}
 	until := w.Clock + d
